@@ -14,6 +14,8 @@ Model of partition-key extraction and token calculation (C03).
   `serialize_values` guard of the public entry points.
 * `computePartitionKey` ← `PreparedStatement::compute_partition_key` (348-360).
 * `tokenForPartitionKey` ← `calculate_token_for_partition_key` (`partitioner.rs:396-423`).
+* `batchFirstToken` ← `batch_values::peek_first_token` (`statement/batch.rs:307-343`) as called by `Session::batch`.
+* `clusterComputeTokenPreserialized` ← `compute_token_preserialized` (`cluster/state.rs:756-764`).
 * `clusterComputeToken` ← `ClusterState::compute_token` / `do_compute_token` / `lookup_table_meta` (`cluster/state.rs:457-501`).
 -/
 namespace ScyllaVerif.PartitionKey
@@ -202,6 +204,45 @@ def clusterComputeTokenChecked (typesOk : Bool) (schema : TableSnapshot) (ks tab
   match clusterComputeToken schema ks table key with
   | .error .unknownTable => .error .unknownTable
   | r => if typesOk then r else .error .serialization
+
+/-- `compute_token_preserialized` (`state.rs:756-764`): `lookup_table_meta` + `do_compute_token` on values the caller
+serialized himself — no column-count and no type check. (`compute_token_preserialized_with_partitioner`, 778-785, is
+`tokenForPartitionKey` itself.) -/
+def clusterComputeTokenPreserialized (schema : TableSnapshot) (ks table : List UInt8) (key : List RawValue) :
+    Except ClusterTokenErr Int64 :=
+  match schema.lookup ks with
+  | none => .error .unknownTable
+  | some tables =>
+    match tables.lookup table with
+    | none => .error .unknownTable
+    | some t =>
+      match tokenForPartitionKey (selectPartitioner t.partitioner == .cdc) key with
+      | .error n => .error (.valueTooLong n)
+      | .ok tok => .ok tok
+
+/-! ### the routing token of a BATCH (`batch_values::peek_first_token`, `statement/batch.rs:307-343`) -/
+
+/-- What `peek_first_token` looks at in `batch.statements.first()`. -/
+inductive BatchStmt where
+  /-- `BatchStatement::Query` -/
+  | unprepared
+  /-- `BatchStatement::PreparedStatement`: its partitioner, pk index table and number of bind markers -/
+  | prepared (cdc : Bool) (pk : List PkIndex) (ncols : Nat)
+  deriving Repr
+
+/-- `peek_first_token(values, batch.statements.first())` as `Session::batch` calls it (`session.rs:1062-1063`):
+only a PREPARED first statement gives a token; the FIRST row of the batch values is serialized against it
+(`serialize_next`: one value per bind marker, at most 65535 — else a serialization error; no row at all: no token) and
+`calculate_token_untyped` is applied. Later statements and later rows are never looked at. -/
+def batchFirstToken (stmts : List BatchStmt) (rows : List (List RawValue)) : Except TokenErr (Option Int64) :=
+  match stmts with
+  | .prepared cdc pk ncols :: _ =>
+    match rows with
+    | [] => .ok none
+    | row :: _ =>
+      if row.length ≠ ncols ∨ 65535 < row.length then .error .serialization
+      else calculateToken cdc pk row
+  | _ => .ok none
 
 /-! ### The specification side -/
 
